@@ -75,6 +75,33 @@ def h15a_one_stroke(row, col, side, length):
     assert b._order >= 1
 
 
+def h15a_side_list(row, col, pair, length):
+    """the same, with the sides given as a list: every side of the list is drawn over the whole length"""
+    t = table3()
+    assume(0 <= row < 3 and 0 <= col < 3 and 1 <= length <= 2)
+    sides = list(pair)
+    horizontal = sides[0] in ("top", "bottom")
+    assume((col if horizontal else row) + length <= 3)
+    b = Border(2.0, RGB(255, 0, 0), "solid")
+    t.set_cell_border(row, col, sides, b, length)
+    row = concretize(row)
+    col = concretize(col)
+    length = concretize(length)
+    covered = [(row, col + i) if horizontal else (row + i, col) for i in range(length)]
+    for r in range(3):
+        for c in range(3):
+            cell = t.cell(r, c)
+            for s in ("top", "right", "bottom", "left"):
+                want = None
+                for side in sides:
+                    dr, dc = DELTA[side]
+                    if (r, c) in covered and s == side:
+                        want = b
+                    if (r - dr, c - dc) in covered and s == OPP[side]:
+                        want = b
+                assert side_of(cell, s) is want
+
+
 def h15b_overlap(row, col, side, from_neighbour):
     """two strokes on the same edge, the second possibly addressed from the neighbouring cell: the later one is reported
     by both cells that share the edge"""
@@ -663,6 +690,9 @@ HARNESSES = [
             bounds="3x3 table, stroke of length 1..2 from any cell on any side (position symbolic)",
             stubs=["model stub: add_stroke reduced to its order stamp; extract_strokes no-op; real set_cell_border / cell_for_stroke"],
             outside=OUT),
+    Harness("H15a-list", h15a_side_list, dict(row=IntDom(), col=IntDom(), pair=Cases([("top", "bottom"), ("left", "right")]), length=IntDom()),
+            bounds="3x3 table, both horizontal (or both vertical) sides of a run of 1..2 cells given as a list (position symbolic)",
+            stubs=["as H15a"], outside=OUT),
     Harness("H15b", h15b_overlap, dict(row=IntDom(), col=IntDom(), side=Cases(SIDES), from_neighbour=BoolDom()),
             bounds="3x3 table, two strokes on the same edge from either of the two cells sharing it"),
 ]
